@@ -132,6 +132,42 @@ theorem C15_property_after_block (c : Bool) (e : Nat) (body rest : Items) (pk : 
   rw [C15_effect_iff_selected]
   cases c <;> simp [Items.sem, Item.sem, Chain.sem]
 
+/-- Import lines and directives inside an unselected clause are inert: an import whose source
+    group exists only inside that clause, an import of something that does not exist at all
+    and a `$unit` that cannot be defined do not make the parse fail and contribute nothing. -/
+theorem C15_unselected_imports_and_directives_inert (pfx : List String) (e e' : Nat) (g u : String)
+    (src : List String) (nd : Option String) (gbody rest : Items) (ee : Bool) :
+    parse ((Items.cons (.block pfx false e
+        (.cons (.group g e' gbody) (.cons (.imp (pfx ++ [g]) none) (.cons (.imp src nd) (.cons (.unit u true) .nil))))
+        (.fin ee)) rest).render 0) = .ok (rest.sem []) :=
+  C15_unselected_contributes_nothing pfx e _ rest ee
+
+/-! ## Several parses on one environment -/
+
+/-- A code parsed on ANY environment whose cases are closed — whatever hierarchy and counters
+    earlier parses left in it — takes effect exactly as its own `sem` says, and returns an
+    environment whose cases are closed again (fix 445f434: the end of the code closes them).
+    What earlier codes contained (e.g. a block left open at their end) is irrelevant. -/
+theorem C15_parse_from_any_environment (p : Items) (s : St) (h : s.state = []) :
+    ∃ s', parseFrom s (p.render 0) = .ok (s', p.sem []) ∧ s'.state = [] := by
+  obtain ⟨s', hr, _, _⟩ := items_ok p 0 s [] []
+    (by intro b hb; simp at hb) (by intro b hb; simp at hb) (by rw [h]; rfl) (popGE_zero _)
+    (fun _ _ => by rw [h]; rfl)
+  refine ⟨s'.finish, ?_, rfl⟩
+  simp only [parseFrom, hr]
+  simp [falseCase, cleanName, fullName]
+
+/-- … hence for a whole history: codes parsed one after the other, each on the environment
+    returned by the previous one, take effect each as its own `sem`. -/
+theorem C15_parse_chain : ∀ (ps : List Items) (s : St), s.state = [] →
+    parseChain s (ps.map (fun p => p.render 0)) = .ok (ps.map (fun p => p.sem []))
+  | [], _, _ => rfl
+  | p :: ps, s, h => by
+    obtain ⟨s', hr, hs'⟩ := C15_parse_from_any_environment p s h
+    simp [parseChain, hr, C15_parse_chain ps s' hs']
+
+example : (St.mk [(0, [.cs 1]), (2, [.nm "a"])] [] 3 2).state = [] := rfl
+
 /-! Non-vacuity: a concrete program with nested blocks, a block closed by a two-level
     de-indentation, a forced `@end`, compact neighbours and property lines — rendered, run
     and compared. -/
@@ -163,6 +199,15 @@ example : (match parse (exampleProgram.render 0) with | .ok o => some o | .error
 theorem C15_misplaced_rejected (ls : List Line) (h : misplaced ls = true) : parse ls = .error () := by
   have := run_misplaced inv_init h
   simp [parse, this]
+
+/-- The same on any environment whose cases are closed: a code that starts with `@else`/`@end`
+    (or contains any other misplaced clause line) is refused whatever was parsed before. -/
+theorem C15_misplaced_rejected_from (s : St) (h : s.state = []) (ls : List Line)
+    (hm : misplaced ls = true) : parseFrom s ls = .error () := by
+  have hinv : Inv [] s :=
+    ⟨by rw [h]; trivial, fun k => by simp [h, openTop, closeGE, specOpenAt, lastAtMost, Matches]⟩
+  have := run_misplaced hinv hm
+  simp [parseFrom, this]
 
 example : misplaced [⟨0, [], .case true⟩, ⟨2, ["a"], .node false 1⟩, ⟨0, [], .fin⟩, ⟨0, [], .els⟩] = true ∧
     misplaced [⟨0, ["engine"], .case true⟩, ⟨2, ["a"], .node false 1⟩, ⟨0, ["wheels"], .els⟩] = true ∧
